@@ -227,3 +227,26 @@ package parser
 //@   ensures result ==> len(r.Comments) == len(b.Comments)
 //@   loop 1 invariant 0 <= iter1 && iter1 <= len(r.Comments) && len(ac) == iter1
 //@   loop 2 invariant 0 <= iter2 && iter2 <= len(b.Comments) && len(bc) == iter2 && len(ac) == len(r.Comments)
+
+// ---------------------------------------------------------------------------------------------
+// C01 (strict parser, group level): what Prometheus' loader refuses in a rule group makes the group an error group
+// (which `pint lint` reports as a Fatal yaml/parse problem). rulefmt.RuleGroup decodes `limit` into an int - yaml.v3
+// takes !!int (and integral !!float) scalars only - and `interval` / `query_offset` into model.Duration.
+//@ spec func shortTag(n *yaml.Node) string = pureCall("(*gopkg.in/yaml.v3.Node).ShortTag", n)
+//@ func parseGroup [C01]
+//@   ghost es []yamlMap
+//@   after call mappingNodes#1 set es = result
+//@   loop 1 invariant es == range1
+//@   loop 1 invariant 0 <= iter1 && iter1 <= len(es)
+//@   loop 1 invariant group.Error.Err == nil
+//@   loop 1 invariant forall j int :: 0 <= j && j < iter1 ==> (es[j].key.Value == "limit" ==> (shortTag(es[j].val) == "!!int" || shortTag(es[j].val) == "!!float"))
+//@   loop 1 invariant forall j int :: 0 <= j && j < iter1 ==> (es[j].key.Value == "interval" ==> durationParses(es[j].val.Value))
+//@   loop 1 invariant forall j int :: 0 <= j && j < iter1 ==> (es[j].key.Value == "query_offset" ==> durationParses(es[j].val.Value))
+//@   loop 1 invariant forall j int :: 0 <= j && j < iter1 ==> groupKey(es[j].key.Value, schema)
+//@   ensures group.Error.Err == nil && (shortTag(node) == "!!map" || shortTag(node) == "!!null") ==> (forall j int :: 0 <= j && j < len(es) ==> (es[j].key.Value == "limit" ==> (shortTag(es[j].val) == "!!int" || shortTag(es[j].val) == "!!float")))
+//@   ensures group.Error.Err == nil && (shortTag(node) == "!!map" || shortTag(node) == "!!null") ==> (forall j int :: 0 <= j && j < len(es) ==> (es[j].key.Value == "interval" ==> durationParses(es[j].val.Value)))
+//@   ensures group.Error.Err == nil && (shortTag(node) == "!!map" || shortTag(node) == "!!null") ==> (forall j int :: 0 <= j && j < len(es) ==> (es[j].key.Value == "query_offset" ==> durationParses(es[j].val.Value)))
+//@   ensures group.Error.Err == nil && (shortTag(node) == "!!map" || shortTag(node) == "!!null") ==> (forall j int :: 0 <= j && j < len(es) ==> groupKey(es[j].key.Value, schema))
+//@   ensures !(shortTag(node) == "!!map" || shortTag(node) == "!!null") ==> group.Error.Err != nil
+// the keys rulefmt.RuleGroup knows (the loader decodes with KnownFields), plus the Thanos extension under that schema
+//@ spec func groupKey(k string, schema Schema) bool = k == "name" || k == "interval" || k == "query_offset" || k == "limit" || k == "labels" || k == "rules" || (k == "partial_response_strategy" && schema == ThanosSchema)
